@@ -427,17 +427,20 @@ def _gen_other(rng, exact):
     return dict(kind="rg", shape=[rng.choice([2, 3])], dist=[_dist(rng, exact)], harmonic=rng.random() < 0.3)
 
 
-def _gen_spaces(rng, exact, maxcells=30, maxtotal=60):
-    for _ in range(100):
-        k = rng.choice([1, 1, 2, 2, 3])
-        space = rng.randrange(k)
-        spaces = [(_gen_rg(rng, exact, maxcells) if i == space else _gen_other(rng, exact)) for i in range(k)]
+def _gen_spaces(rng, exact, maxcells=30, maxtotal=60, k=None, space=None):
+    for _ in range(200):
+        kk = k if k is not None else rng.choice([1, 1, 2, 2, 3])
+        sp = space if space is not None else rng.randrange(kk)
+        spaces = [(_gen_rg(rng, exact, maxcells) if i == sp else _gen_other(rng, exact)) for i in range(kk)]
         tot = 1
         for d in spaces:
             tot *= int(np.prod(d["shape"]))
         if tot <= maxtotal:
-            return spaces, space
+            return spaces, sp
     return [dict(kind="rg", shape=[4], dist=[0.5], harmonic=False)], 0
+
+
+SWEEP = [(kind, k, sp) for kind in ("fft", "hartley", "htop") for k in (1, 2, 3) for sp in range(k)]
 
 
 def _gen_x(rng, size, cplx, basis):
@@ -448,12 +451,18 @@ def _gen_x(rng, size, cplx, basis):
     return [[rng.randint(-9, 9), rng.randint(-9, 9) if cplx else 0] for _ in range(size)]
 
 
-def _gen_op_cases(rng, n_cfg, exact_share):
+def _gen_op_cases(rng, n_cfg, exact_share, sweeps=0):
+    """`sweeps` passes over every (operator kind, number of spaces, transformed space) combination, then n_cfg random"""
     cases = []
-    for c in range(n_cfg):
+    forced = [f for _ in range(sweeps) for f in SWEEP] + [None] * n_cfg
+    for c, f in enumerate(forced):
         exact = rng.random() < exact_share
-        spaces, space = _gen_spaces(rng, exact)
-        kind = rng.choice(["fft", "hartley", "hartley", "htop"])
+        if f is None:
+            spaces, space = _gen_spaces(rng, exact)
+            kind = rng.choice(["fft", "hartley", "hartley", "htop"])
+        else:
+            kind = f[0]
+            spaces, space = _gen_spaces(rng, exact, maxcells=16, maxtotal=40, k=f[1], space=f[2])
         if kind == "htop":
             spaces[space]["harmonic"] = True if rng.random() < 0.93 else spaces[space]["harmonic"]
         tgt = None
@@ -470,7 +479,7 @@ def _gen_op_cases(rng, n_cfg, exact_share):
             modes = MODES if kind != "htop" else (1, 2)
             for mode in modes:
                 for basis in (False, True):
-                    cplx = True if kind == "fft" else (rng.random() < 0.4)
+                    cplx = (rng.random() < 0.75) if kind == "fft" else (rng.random() < 0.4)
                     cases.append(dict(t="op", kind=kind, spaces=spaces, space=space, tgt=tgt, mode=mode, conv=conv,
                                       cplx=cplx, x=_gen_x(rng, size, cplx, basis), oseed=rng.randrange(1 << 30),
                                       cfg=c))
@@ -617,8 +626,8 @@ def run(ctx):
     rng = ctx.rng
     corpus = _load_corpus()
     op_cases = [c for c in corpus if c.get("t") == "op"]
-    op_cases += _gen_op_cases(rng, ctx.n(22, 120), exact_share=0.45) + _gen_malformed(rng)
-    be_cases = [c for c in corpus if c.get("t") == "backend"] + _gen_backend_cases(rng, ctx.n(60, 400))
+    op_cases += _gen_op_cases(rng, ctx.n(6, 60), exact_share=0.45, sweeps=ctx.n(1, 5)) + _gen_malformed(rng)
+    be_cases = [c for c in corpus if c.get("t") == "backend"] + _gen_backend_cases(rng, ctx.n(40, 400))
     sht_cases = [c for c in corpus if c.get("t") == "sht"] + _gen_sht_cases(rng, ctx.n(10, 60))
     sm_cases = [c for c in corpus if c.get("t") == "smooth"] + _gen_smooth_cases(rng, ctx.n(12, 60))
 
@@ -821,7 +830,7 @@ def shrink(case):
 def search(ctx):
     """targeted search on the real code: every kind x convention x domain flavour at small sizes"""
     rng = ctx.rng
-    for c in _gen_op_cases(rng, 60, exact_share=0.3):
+    for c in _gen_op_cases(rng, 30, exact_share=0.3, sweeps=2):
         if c["mode"] != 1 or c["x"][0][0] == 0 and False:
             continue
         r = oracle(c)
